@@ -584,6 +584,62 @@ func c13Long(c *core.Collector, x *Ctx) {
 			}
 		}(li, sc)
 	}
+	// a key function that maps a terminal to the EMPTY key (zero padding trimmed from an all-zero phone number): the session is
+	// registered under "", ends, and commands for "" come back at once afterwards; the terminal is admitted again. (Own server,
+	// no other connections: on this server every connection joins.)
+	longWG.Add(1)
+	go func() {
+		defer longWG.Done()
+		srvE, err := svc.Start(func() service.TerminalEventer { return svc.NewRecorder() }, service.WithKeyFunc(func(m *service.Message) (string, bool) {
+			return strings.TrimLeft(m.JTMessage.Header.TerminalPhoneNo, "0"), true
+		}))
+		if err != nil {
+			c.Inconclusive()
+			return
+		}
+		for round := 0; round < 3; round++ {
+			c.Eval()
+			t, err := svc.Dial(srvE.Addr, round%2 == 1, "0")
+			if err != nil {
+				c.Inconclusive()
+				return
+			}
+			t.Write(t.Frame(0x0002, uint16(1+round), nil))
+			if rx, ok, to := t.Next(20 * time.Second); to {
+				c.Inconclusive()
+				t.Close()
+				return
+			} else if !ok || rx.F == nil || rx.F.ID != 0x8001 {
+				c.Violate("liveness|a terminal whose key is the empty string is not admitted (again)", fmt.Sprintf("round %d", round), nil)
+				t.Close()
+				return
+			}
+			res := sendCmd(srvE.G, "", consts.P8104QueryTerminalParams, nil, 100*time.Millisecond, 100*time.Millisecond+slackFor(100*time.Millisecond))
+			if res.kind == "stranded" || res.kind == "notexist" {
+				c.Violate("stranded|SendActiveMessage did not return within timeout + slack|empty-key session", "command to the online terminal registered under the empty key: "+res.kind, nil)
+			}
+			if round%2 == 0 {
+				t.Reset()
+			} else {
+				t.Close()
+			}
+			if rec := svc.Lookup(t.Phone, uint16(1+round)); rec == nil || !rec.WaitLeave(20*time.Second) {
+				c.Inconclusive()
+				return
+			}
+			// after the terminal has gone: three commands in a row (the 4th would block the session manager if the registry still
+			// pointed at the dead connection's queue)
+			for k := 0; k < 5; k++ {
+				res := sendCmd(srvE.G, "", consts.P8104QueryTerminalParams, nil, 100*time.Millisecond, 100*time.Millisecond+slackFor(100*time.Millisecond))
+				c.Eval()
+				if res.kind != "notexist" {
+					c.Violate("stranded|SendActiveMessage did not return within timeout + slack|empty-key session", fmt.Sprintf("command %d to the empty key after its terminal had left: %s; service goroutines: %v", k, res.kind, goroutineDump()), nil)
+					return
+				}
+			}
+			c.Count("empty_key_sessions_ended_and_readmitted", 1)
+		}
+	}()
 	longWG.Wait()
 	c.Count("bytes_flooded_at_peers_that_do_not_read", floodBytes.Load())
 	c.Floor("calls_in_ten_second_scenarios", 12)
